@@ -243,7 +243,7 @@ def generic_sites(seed, D, ops):
         c = (811 + 29 * seed + 97 * k) % 997
         k += 1
         cand = out + [(a * 12, b * 12, c * 12)]
-        if xtal.image_separation(ops, np.array(cand, dtype=float) / D) > 0.03:
+        if not (xtal.image_separation(ops, np.array(cand, dtype=float) / D) <= 0.03):
             out = cand
     if len(out) < 3:
         raise RuntimeError("no generic sites found")
